@@ -94,10 +94,21 @@ func (hp *HTTPProxy) errorResponse(req *http.Request, err error) *http.Response 
 	if code == http.StatusProxyAuthRequired {
 		resp.Header.Set("Proxy-Authenticate", fmt.Sprintf("Basic realm=%q", hp.config.Name))
 	}
-	resp.Header.Set(ErrorHeader, hp.config.Name+" "+err.Error())
+	resp.Header.Set(ErrorHeader, hp.config.Name+" "+headerSafe(err.Error()))
 	resp.Header.Set("Content-Type", "text/plain; charset=utf-8")
 	resp.ContentLength = int64(body.Len())
 	return resp
+}
+
+// headerSafe makes s fit for a header field value: error texts may quote bytes received from
+// an upstream verbatim, control characters among them.
+func headerSafe(s string) string {
+	return strings.Map(func(r rune) rune {
+		if r < 0x20 && r != '\t' || r == 0x7f {
+			return ' '
+		}
+		return r
+	}, s)
 }
 
 type errorHandler func(*http.Request, error) (int, string, string)
